@@ -42,10 +42,10 @@ def r1(ctx):
     ctx.ob("numbering strides", all(g.sq[(f, r)] == g.sq[(0, 0)] + f * fstride + r * rstride for f in range(8) for r in range(8)) and g.sq[(0, 0)] == 0,
            "Pos discriminants are not an affine function of (file, rank)", sample={"file_stride": fstride, "rank_stride": rstride})
     cases = {
-        "from_pos": bbv(eng.binop("Shl", T.I(1, "u64"), ("cast", "u8", ("discr", ("param", 0, "pos"))))),
-        "from_file": bbv(eng.binop("Shl", T.I(file_a, "u64"), eng.binop("Mul", ("cast", "u8", ("discr", ("param", 0, "file"))), T.I(fstride, "u8")) if fstride != 1 else ("cast", "u8", ("discr", ("param", 0, "file"))))),
-        "from_rank": bbv(eng.binop("Shl", T.I(rank_1, "u64"), eng.binop("Mul", ("cast", "u8", ("discr", ("param", 0, "rank"))), T.I(rstride, "u8")))),
-        "from_u64": bbv(("param", 0, "board")),
+        "from_pos": bbv(eng.binop("Shl", T.I(1, "u64"), ("cast", "u8", ("discr", ("param", 0, "a0"))))),
+        "from_file": bbv(eng.binop("Shl", T.I(file_a, "u64"), eng.binop("Mul", ("cast", "u8", ("discr", ("param", 0, "a0"))), T.I(fstride, "u8")) if fstride != 1 else ("cast", "u8", ("discr", ("param", 0, "a0"))))),
+        "from_rank": bbv(eng.binop("Shl", T.I(rank_1, "u64"), eng.binop("Mul", ("cast", "u8", ("discr", ("param", 0, "a0"))), T.I(rstride, "u8")))),
+        "from_u64": bbv(("param", 0, "a0")),
         "empty": bbv(T.I(0, "u64")),
         "to_u64": word(("param", 0, "self")),
     }
@@ -60,8 +60,8 @@ def r1(ctx):
 def r2(ctx):
     P = ctx.P
     eng = T.Engine(P)
-    x, y = word(("param", 0, "self")), word(("param", 1, "other"))
-    bit = eng.binop("Shl", T.I(1, "u64"), ("cast", "u8", ("discr", ("param", 1, "pos"))))
+    x, y = word(("param", 0, "self")), word(("param", 1, "a1"))
+    bit = eng.binop("Shl", T.I(1, "u64"), ("cast", "u8", ("discr", ("param", 1, "a1"))))
     Z = T.I(0, "u64")
     pure = {
         "or": bbv(eng.binop("BitOr", x, y)), "and": bbv(eng.binop("BitAnd", x, y)), "xor": bbv(eng.binop("BitXor", x, y)), "not": bbv(eng.unop("Not", x)),
@@ -199,7 +199,7 @@ def r5(ctx):
             bad.append(f"nth can panic: {lf.ret[1]} under {T.show_cond([c for c in lf.cond if c[0][0] != 'assert'])[:100]}")
             continue
         tz = [(t, v) for t, v in lf.cond if t[0] == "cast" and t[2][0] == "trailing_zeros"]
-        big_n = [v for t, v in lf.cond if T.threshold(t, v) and T.threshold(t, v)[0] == ("param", 1, "n") and T.threshold(t, v)[1] == 64]
+        big_n = [v for t, v in lf.cond if T.threshold(t, v) and T.threshold(t, v)[0] == ("param", 1, "a1") and T.threshold(t, v)[1] == 64]
         for t, v in tz:
             sel = t[2][1]
             selectors.add(sel)
@@ -223,7 +223,7 @@ def r5(ctx):
             bad.append(f"selected bit {z}: returns {T.show(lf.ret)}, leaves {T.show(neww)[:70]}; expected Some({names.get(z)}) and bits & {hex(want_mask)}")
         seen.add(z)
     ctx.ob("nth table", not bad and seen >= set(range(64)) | {"end"}, f"nth: {bad[:2]} (cases {len(seen)}/65)", site=site, sample={"cases": len(seen)})
-    n = ("param", 1, "n")
+    n = ("param", 1, "a1")
     want_sel = {("app", "core::core_arch::x86_64::bmi2::_pdep_u64", (eng.binop("Shl", T.I(1, "u64"), n), x)), ("app", "core::core_arch::x86_64::bmi2::_pdep_u64", (T.I(0, "u64"), x))}
     got_sel = {(s_[0], s_[1], s_[2]) for s_ in selectors if s_[0] == "app"}
     ctx.ob("nth selector", got_sel == want_sel, f"nth selects with {[T.show(s_)[:90] for s_ in selectors]}; expected pdep(1 << n, bits) for n < 64 and pdep(0, bits) otherwise", site=site,
@@ -240,7 +240,7 @@ OPS = {
 def r6(ctx):
     P = ctx.P
     eng0 = T.Engine(P)
-    x, y = word(("param", 0, "self")), word(("param", 1, "rhs"))
+    x, y = word(("param", 0, "self")), word(("param", 1, "a1"))
     want = {"bitor": eng0.binop("BitOr", x, y), "bitand": eng0.binop("BitAnd", x, y), "bitxor": eng0.binop("BitXor", x, y), "sub": eng0.binop("BitAnd", x, eng0.unop("Not", y)), "not": eng0.unop("Not", x)}
     n = 0
     for k, b in P.fns.items():
@@ -263,7 +263,7 @@ def r6(ctx):
             ctx.ob(f"{tr.rsplit('::',1)[-1]}", got == {bbv(w)}, f"{k} leaves *self = {[T.show(r)[:80] for r in got]}; expected {T.show(bbv(w))[:80]}", site=b.get("def_span"))
         elif "chess_bitboard::pos::Pos" in tr:
             n += 1
-            bit = eng0.binop("Shl", T.I(1, "u64"), ("cast", "u8", ("discr", ("param", 1, "rhs"))))
+            bit = eng0.binop("Shl", T.I(1, "u64"), ("cast", "u8", ("discr", ("param", 1, "a1"))))
             if name == "sub":
                 ok = len(lv) == 1 and lv[0].ret == bbv(eng0.binop("BitAnd", x, eng0.unop("Not", bit)))
             else:
@@ -291,7 +291,7 @@ def r7(ctx):
         key = f"<{BB} as core::convert::From<{src}>>::from"
         ctx.used_body(key)
         a = T.Engine(P, opaque={f"{BB}::{fn}"}).tabulate(key)
-        ctx.ob(f"From<{src.rsplit('::',1)[-1]}>", len(a) == 1 and a[0].ret == ("app", f"{BB}::{fn}", (("param", 0, "value"),)), f"{key} is {[T.show(l.ret)[:80] for l in a]}", site=P.body(key).get("def_span"))
+        ctx.ob(f"From<{src.rsplit('::',1)[-1]}>", len(a) == 1 and a[0].ret == ("app", f"{BB}::{fn}", (("param", 0, "a0"),)), f"{key} is {[T.show(l.ret)[:80] for l in a]}", site=P.body(key).get("def_span"))
 
 
 # ------------------------------------------------------------------ controls
